@@ -165,6 +165,47 @@ json.dump(versions, open(out + "/__versions__.json", "w"))
 
 _generated_cache: dict | None = None
 
+# the same four files, configured in another order and each root after the other one with the SAME
+# configuration (what the models define must not depend on which root was configured before)
+_ORDER_WRAPPER = r"""
+import json, runpy, sys, io, contextlib
+from pathlib import Path
+src, script, out = sys.argv[1], sys.argv[2], sys.argv[3]
+sys.path.insert(0, src)
+from pydantic import ConfigDict
+buf = io.StringIO()
+with contextlib.redirect_stdout(buf):
+    g = runpy.run_path(script, run_name="not_main")
+    from hugr._serialization.serial_hugr import SerialHugr
+    from hugr._serialization.testing_hugr import TestingHugr
+    strict, lax = ConfigDict(strict=True, extra="forbid"), ConfigDict(strict=False, extra="allow")
+    w = g["write_schema"]
+    w(Path(out), "hugr_schema", SerialHugr, config=lax)
+    w(Path(out), "testing_hugr_schema", TestingHugr, config=lax)
+    w(Path(out), "testing_hugr_schema_strict", TestingHugr, config=strict)
+    w(Path(out), "hugr_schema_strict", SerialHugr, config=strict)
+"""
+
+_reordered_cache: dict | None = None
+
+
+def reordered(repo: Path = REPO) -> dict:
+    global _reordered_cache
+    if _reordered_cache is not None:
+        return _reordered_cache
+    with tempfile.TemporaryDirectory(prefix="c17ord") as td:
+        p = subprocess.run(
+            [sys.executable, "-c", _ORDER_WRAPPER, str(repo / "hugr-py" / "src"),
+             str(repo / "scripts" / "generate_schema.py"), td],
+            capture_output=True, text=True, timeout=600,
+            env={**os.environ, "PYTHONDONTWRITEBYTECODE": "1"},
+        )
+        if p.returncode != 0:
+            _reordered_cache = {"error": (p.stderr or p.stdout)[-800:]}
+        else:
+            _reordered_cache = {"files": {f.name: json.loads(f.read_text()) for f in sorted(Path(td).glob("*.json"))}}
+    return _reordered_cache
+
 
 def generated(repo: Path = REPO) -> dict:
     """{'files': {name: schema}, 'versions': {...}} from the real generator script, in a subprocess
@@ -1195,9 +1236,9 @@ def cases(rng, tier):
     elif tier == "thorough":
         specs = _doc_specs(rng, names, 300, 1200, 2000) + _syn_specs(rng, 500, 4)
     else:  # search: oracle only
-        return _doc_specs(rng, names, 60, 500, 900)
+        return [{"kind": "order"}] + _doc_specs(rng, names, 60, 500, 900)
     _js_batch(specs)
-    return specs
+    return [{"kind": "order"}] + specs
 
 
 def run_impl(spec) -> str:
@@ -1283,6 +1324,20 @@ def oracle(spec) -> list[Failure]:
     if kind == "files":
         f = _files_failure()
         return [f] if f else []
+    if kind == "order":
+        r = reordered()
+        if "error" in r:
+            return [Failure("model_rebuild", "rebuild-in-another-order-raises", r["error"][-300:])]
+        g = generated()["files"]
+        for name in sorted(g):
+            if name not in r["files"]:
+                return [Failure("model_rebuild", "schema-depends-on-rebuild-order", f"{name} not written")]
+            d = first_difference(normalize(g[name]), normalize(r["files"][name]))
+            if d is not None:
+                return [Failure("model_rebuild", "schema-depends-on-rebuild-order",
+                                f"{name} at {d[0]}: {json.dumps(d[1])[:160]} (generator script order) vs "
+                                f"{json.dumps(d[2])[:160]} (each root configured after the other one)")]
+        return []
     return []
 
 
